@@ -187,7 +187,7 @@ SPECS["C07"] = v2spec(
     title="detection does not depend on position or surrounding unrelated text",
     rule=("case = one text X (exact / 5-15-20% edited / head- or tail-truncated corpus document, concatenation, scenario file) matched in six placements: alone, suffix only, prefix only, both, "
           "far (prefix of ~8000 filler tokens) and far' (far + 3 lines, other suffix). Oracle: all prefixed placements agree pairwise after shifting token indices/lines by the prefix size (strict); "
-          "alone == suffix-only (strict); alone == prefixed unless the signature of KF-C07-1 holds (only noisy matches differ, prefixed placements mutually equal). "
+          "alone == suffix-only (strict); alone == prefixed (strict since the repair of the former finding KF-C07-1, commit 5b909eb). "
           "Non-trivial = X has at least one license match; distinct = distinct X."),
     floor_evals={"quick": 700, "thorough": 8000},
     floor_nontrivial={"quick": 400, "thorough": 4000},
@@ -876,7 +876,7 @@ LEVEL_TEXT = {
     "C04": "Exploration across processes: the same seeded queries are answered by 8 separately started processes (different map-iteration seeds) in 8 corpus/trace configurations, three times each with other calls in between; results are compared bit for bit in returned order. Nondeterminism that needs a particular map order is only seen if some process draws it - hence several processes, and still only 'held on what was observed'.",
     "C05": "Exploration (metamorphic): presentation transformations and their compositions are applied to license-bearing texts; results must agree exactly. The transformation space is unbounded.",
     "C06": "Exploration (metamorphic) with five recorded findings (KF-C06-1..5) handled by token-level signatures; everything outside the signatures is reported.",
-    "C07": "Exploration (metamorphic over six placements per text); one recorded finding (clamp at token 0) handled by a subset-relation signature.",
+    "C07": "Exploration (metamorphic over six placements per text: alone, suffix only, prefix only, both, far, far'); every pair of placements must agree after shifting - no exemption since the former finding KF-C07-1 was repaired.",
     "C08": "Fault enumeration: for each selected input EVERY pad width 0..2056 and EVERY reader-failure offset 0..len(input) (two delivery styles) is executed, plus nine fragmenting readers; the enumeration is complete for those inputs (exhaustive=true), the choice of inputs is seeded.",
     "C09": "Exploration of schedules: the Go race detector observes repeated concurrent storms (fresh classifier per storm, several processes) and every concurrent result is compared with the sequential one. The race detector only sees interleavings that occur; a clean run is not a proof of race freedom.",
     "C10": "Exploration: structure-aware hostile inputs x thresholds x corpora under recover(), process-death attribution and a double-confirmed watchdog. Totality over all byte strings cannot be enumerated.",
